@@ -6,6 +6,7 @@ CONSTANTS
   MapKeys = {"k1", "k2"}
   Nest = FALSE
   MaxDel = 2
+  Merge = FALSE
   Dups = FALSE
 SPECIFICATION Spec
 INVARIANTS InvOnce InvPlaced InvBetween InvDepClosed InvNothingLost InvPending InvConverge InvPairOrder InvClosed 
